@@ -304,4 +304,88 @@ func Variants() []Variant {
 	}
 }
 
-func Bases() []Base { return []Base{BaseHTTP(), BaseGRPCTLS()} }
+// BaseExtras: the string fields of features NGF does not implement (timeouts, retry, session persistence,
+// request mirror, extension refs, infrastructure, addresses of unsupported type, SAN lists, backendRef
+// filters, port/sectionName combinations). Each sits in its own rule so that the rest is still rendered.
+func BaseExtras() Base {
+	var objs []client.Object
+	gc := gatewayClass()
+	gc.Spec.ParametersRef.Namespace = ptr(gatewayv1.Namespace("ignored-ns"))
+	objs = append(objs, gc, nginxProxy(ngfAPI.RewriteClientIPModeXForwardedFor, ngfAPI.Dual))
+	gw := p.Gateway("default", "gw", p.DefaultClass, 1,
+		p.Listener{Name: "http", Port: 8080, Protocol: "HTTP"},
+		p.Listener{Name: "named", Port: 8080, Protocol: "HTTP", Hostname: "named.example.com"},
+	)
+	gw.Spec.Infrastructure = &gatewayv1.GatewayInfrastructure{
+		Labels:        map[gatewayv1.LabelKey]gatewayv1.LabelValue{"infra-label": "lv"},
+		Annotations:   map[gatewayv1.AnnotationKey]gatewayv1.AnnotationValue{"infra/anno": "av"},
+		ParametersRef: &gatewayv1.LocalParametersReference{Group: "example.com", Kind: "Params", Name: "p"},
+	}
+	gw.Labels = map[string]string{"gw-label": "x"}
+	gw.Annotations = map[string]string{"gw/annotation": "y"}
+	objs = append(objs, gw)
+
+	r0 := p.HTTPRule([]gatewayv1.HTTPRouteMatch{p.PathMatch("PathPrefix", "/a")}, p.Backend{Ref: "svc1", Port: 80, Weight: -1})
+	r0.Timeouts = &gatewayv1.HTTPRouteTimeouts{Request: ptr(gatewayv1.Duration("10s")), BackendRequest: ptr(gatewayv1.Duration("5s"))}
+	r0.Retry = &gatewayv1.HTTPRouteRetry{Codes: []gatewayv1.HTTPRouteRetryStatusCode{503}, Attempts: ptr(2), Backoff: ptr(gatewayv1.Duration("100ms"))}
+	r0.SessionPersistence = &gatewayv1.SessionPersistence{
+		SessionName: ptr("sess"), AbsoluteTimeout: ptr(gatewayv1.Duration("1h")), IdleTimeout: ptr(gatewayv1.Duration("10m")),
+		Type: ptr(gatewayv1.CookieBasedSessionPersistence), CookieConfig: &gatewayv1.CookieConfig{LifetimeType: ptr(gatewayv1.SessionCookieLifetimeType)},
+	}
+	r0.BackendRefs[0].Filters = []gatewayv1.HTTPRouteFilter{{Type: gatewayv1.HTTPRouteFilterRequestHeaderModifier,
+		RequestHeaderModifier: &gatewayv1.HTTPHeaderFilter{Set: []gatewayv1.HTTPHeader{hdr("B-Set", "bval")}}}}
+	r1 := p.HTTPRule([]gatewayv1.HTTPRouteMatch{p.PathMatch("PathPrefix", "/m")}, p.Backend{Ref: "svc1", Port: 80, Weight: -1})
+	r1.Filters = []gatewayv1.HTTPRouteFilter{{Type: gatewayv1.HTTPRouteFilterRequestMirror, RequestMirror: &gatewayv1.HTTPRequestMirrorFilter{
+		BackendRef: p.BackendRef(p.Backend{Ref: "svc3", Port: 80, Weight: -1}).BackendObjectReference}}}
+	r2 := p.HTTPRule([]gatewayv1.HTTPRouteMatch{p.PathMatch("PathPrefix", "/e")}, p.Backend{Ref: "svc1", Port: 80, Weight: -1})
+	r2.Filters = []gatewayv1.HTTPRouteFilter{{Type: gatewayv1.HTTPRouteFilterExtensionRef,
+		ExtensionRef: &gatewayv1.LocalObjectReference{Group: ngfAPI.GroupName, Kind: "SnippetsFilter", Name: "sf"}}}
+	r3 := p.HTTPRule([]gatewayv1.HTTPRouteMatch{{
+		Path:        &gatewayv1.HTTPPathMatch{Type: ptr(gatewayv1.PathMatchRegularExpression), Value: ptr("/re.*")},
+		Headers:     []gatewayv1.HTTPHeaderMatch{{Type: ptr(gatewayv1.HeaderMatchRegularExpression), Name: "X-Re", Value: "v.*"}},
+		QueryParams: []gatewayv1.HTTPQueryParamMatch{{Type: ptr(gatewayv1.QueryParamMatchRegularExpression), Name: "q", Value: "v.*"}},
+	}}, p.Backend{Ref: "svc1", Port: 80, Weight: -1})
+	r4 := p.HTTPRule([]gatewayv1.HTTPRouteMatch{p.PathMatch("Exact", "/plain"), p.PathMatch("PathPrefix", "/plain")},
+		p.Backend{Ref: "svc2", Port: 80, Weight: 1}, p.Backend{Ref: "nosuch", Port: 80, Weight: 1}, p.Backend{Ref: "svc3", Port: 81, Weight: 1},
+		p.Backend{Ref: "svc3", Port: 80, Weight: 0, Kind: "Other", Group: "example.com"})
+	hr := p.HTTPRoute("default", "ex", 2,
+		[]gatewayv1.ParentReference{p.ParentRef("", "gw", ""), p.ParentRef("default", "gw", "named")},
+		[]string{"ex.example.com", "*.wild.example.com"}, r0, r1, r2, r3, r4)
+	hr.Spec.ParentRefs[1].Port = ptr(gatewayv1.PortNumber(8080))
+	hr.Labels = map[string]string{"route-label": "l"}
+	hr.Annotations = map[string]string{"route/annotation": "a"}
+	objs = append(objs, hr)
+
+	// a second route on the same hostname and path (conflict resolution by age), with a policy on it
+	hr2 := p.HTTPRoute("default", "ex2", 3, []gatewayv1.ParentReference{p.ParentRef("", "gw", "http")}, []string{"ex.example.com"},
+		p.HTTPRule([]gatewayv1.HTTPRouteMatch{p.PathMatch("PathPrefix", "/a")}, p.Backend{Ref: "svc3", Port: 80, Weight: -1}))
+	objs = append(objs, hr2)
+
+	btp := &v1alpha3.BackendTLSPolicy{ObjectMeta: p.Meta("default", "btp", 5)}
+	btp.Spec.TargetRefs = []v1alpha2.LocalPolicyTargetReferenceWithSectionName{
+		{LocalPolicyTargetReference: v1alpha2.LocalPolicyTargetReference{Group: "", Kind: "Service", Name: "svc2"}},
+		{LocalPolicyTargetReference: v1alpha2.LocalPolicyTargetReference{Group: "", Kind: "Service", Name: "svc3"}},
+	}
+	btp.Spec.Validation.Hostname = "backend.example.com"
+	btp.Spec.Validation.CACertificateRefs = []gatewayv1.LocalObjectReference{{Group: "", Kind: "ConfigMap", Name: "ca-bundle"}}
+	btp.Spec.Validation.SubjectAltNames = []v1alpha3.SubjectAltName{
+		{Type: v1alpha3.HostnameSubjectAltNameType, Hostname: "alt.example.com"},
+		{Type: v1alpha3.URISubjectAltNameType, URI: "spiffe://example.com/ns/default"},
+	}
+	objs = append(objs, btp)
+
+	usp := &ngfAPI.UpstreamSettingsPolicy{ObjectMeta: p.Meta("default", "usp", 7)}
+	usp.Spec.TargetRefs = []v1alpha2.LocalPolicyTargetReference{{Group: "core", Kind: "Service", Name: "svc1"}, {Group: "", Kind: "Service", Name: "svc3"}}
+	usp.Spec.ZoneSize = ptr(ngfAPI.Size("2m"))
+	objs = append(objs, usp)
+
+	obs := &ngfAPIv2.ObservabilityPolicy{ObjectMeta: p.Meta("default", "obs", 8)}
+	obs.Spec.TargetRefs = []v1alpha2.LocalPolicyTargetReference{{Group: gwGroup, Kind: "HTTPRoute", Name: "ex"}, {Group: gwGroup, Kind: "HTTPRoute", Name: "ex2"}}
+	obs.Spec.Tracing = &ngfAPIv2.Tracing{Strategy: ngfAPIv2.TraceStrategyRatio, SpanName: ptr("span two"),
+		SpanAttributes: []ngfAPI.SpanAttribute{{Key: "k1", Value: "v1"}, {Key: "k2", Value: "v 2"}}}
+	objs = append(objs, obs)
+
+	return Base{Name: "extras", Objs: common(objs), Opts: p.DefaultOptions()}
+}
+
+func Bases() []Base { return []Base{BaseHTTP(), BaseGRPCTLS(), BaseExtras()} }
